@@ -187,7 +187,10 @@ func tokenize(src string) ([]token, error) {
 		case c == '>':
 			toks = append(toks, token{">", true})
 			i++
-		case c == '|' && (i+1 >= len(src) || src[i+1] != '|'):
+		case c == '|' && i+1 < len(src) && src[i+1] == '|':
+			toks = append(toks, token{"||", true})
+			i += 2
+		case c == '|':
 			toks = append(toks, token{"|", true})
 			i++
 		case c == '|' || c == '<' || c == '&' || c == '$' || c == '`' || c == '(' || c == ')':
@@ -225,6 +228,7 @@ type shellRun struct {
 	// `set -e` / `set -o pipefail`
 	errexit, pipefail bool
 	launcher          []string // launcher words stripped from the current simple command
+	exited            bool     // `exit` was executed
 	children          WaitGroup // background children that inherited the script's stdout/stderr
 }
 
@@ -254,7 +258,7 @@ func (sh *Shell) ExecMode(script string, waitChildren bool) ([]byte, error) {
 		// collect one simple command
 		var words []string
 		redir, redirTo := "", ""
-		for i < len(toks) && !(toks[i].op && (toks[i].s == "&&" || toks[i].s == ";" || toks[i].s == "|")) {
+		for i < len(toks) && !(toks[i].op && (toks[i].s == "&&" || toks[i].s == "||" || toks[i].s == ";" || toks[i].s == "|")) {
 			if toks[i].op {
 				if i+1 >= len(toks) || toks[i+1].op {
 					s.HarnessFail("bad redirection in: " + script)
@@ -274,6 +278,15 @@ func (sh *Shell) ExecMode(script string, waitChildren bool) ([]byte, error) {
 					r.children.Wait()
 				}
 				return r.out, &ExitError{Code: -1, Signal: signal}
+			}
+			if r.exited {
+				if waitChildren {
+					r.children.Wait()
+				}
+				if status != 0 {
+					return r.out, &ExitError{Code: status}
+				}
+				return r.out, nil
 			}
 			lastStage := i >= len(toks) || toks[i].s != "|"
 			if lastStage {
@@ -297,7 +310,9 @@ func (sh *Shell) ExecMode(script string, waitChildren bool) ([]byte, error) {
 		if i < len(toks) {
 			switch toks[i].s {
 			case "&&":
-				skip = skip || status != 0
+				skip = status != 0
+			case "||":
+				skip = status == 0
 			case "|":
 				// pipeline: every stage runs, the status is that of the last
 				// stage (bash without pipefail). Only stages that neither read
@@ -428,7 +443,8 @@ func (r *shellRun) simple(w []string, redir, redirTo string) (int, string) {
 		if len(w) > 1 {
 			code, _ = strconv.Atoi(w[1])
 		}
-		return code, "" // (does not abort the list; only used as last command)
+		r.exited = true // the shell ends here, whatever follows
+		return code, ""
 	case "echo":
 		stdout = []byte(strings.Join(w[1:], " ") + "\n")
 	case "cat":
